@@ -22,7 +22,10 @@ SSE_MAIN = [1, 2, 3, 4, 5, 6, 8, 9, 10, 12, 15, 16, 24, 32]
 SSE_PRIME = [7, 11, 13, 17, 19, 23, 29, 31]
 for k in sorted(SSE_MAIN + SSE_PRIME):
     HARNESSES.append(('sse_f32_butterfly%d_single' % k, ['C03', 'C09', 'C15'], 'thorough', 'complete', 'sse'))
-    if k != 16:
+    # the two-chunk harnesses of the two largest prime butterflies are defined (kani/harness_sse_prime.rs) but NOT run: kani-driver
+    # needs more than the 62 GB of this machine for them (OOM-killed three times on 2026-09-24). Their memory-touching function
+    # (`perform_parallel_fft_contiguous`) is under contract in the Verus unit simd_kernels_sse; the rest is register arithmetic.
+    if k != 16 and k not in (29, 31):
         HARNESSES.append(('sse_f32_butterfly%d_parallel' % k, ['C03', 'C07', 'C09', 'C15'], 'thorough', 'complete', 'sse'))
     HARNESSES.append(('sse_f64_butterfly%d_single' % k, ['C03', 'C09', 'C15'], 'thorough', 'complete', 'sse'))
 
